@@ -70,25 +70,13 @@ Theorem locate_returns_original_complex : forall e f n ks s k o, Forall (cgood e
 Proof. exact complex_locate_returns_original. Qed.
 Print Assumptions locate_returns_original_complex.
 
-(* the full statement for primitive sets ("the stored value itself") is FALSE of the current code: the set hands back the
-   looked-up key.  What holds: the returned key is == to the original, hence identical unless both are float zeros. *)
-Definition primitive_locate_full_statement : Prop :=
-  forall p ks s k o, add_all value phash (pkeq p) (empty_p value) ks = Some s -> In o ks -> prim_equal p o k = true ->
-                     locate value phash (pkeq p) s k = Some o.
-Theorem locate_primitive_partial : forall p ks s k, add_all value phash (pkeq p) (empty_p value) ks = Some s ->
-  locate value phash (pkeq p) s k = (if existsb (fun o => prim_equal p o k) ks then Some k else None).
-Proof. exact primitive_locate. Qed.
-Print Assumptions locate_primitive_partial.
-Theorem primitive_equal_is_identical_up_to_signed_zero : forall p a b, prim_equal p a b = true ->
-  a = b \/ (exists x y, a = VFloat x /\ b = VFloat y /\ is_zero32 x = true /\ is_zero32 y = true)
-        \/ (exists x y, a = VDouble x /\ b = VDouble y /\ is_zero64 x = true /\ is_zero64 y = true).
-Proof. exact prim_equal_identity. Qed.
-Print Assumptions primitive_equal_is_identical_up_to_signed_zero.
-Theorem locate_primitive_refuted :
-  exists ks s k o, add_all value phash (pkeq PDouble) (empty_p value) ks = Some s /\ In o ks /\ pkeq PDouble o k = true /\
-                   locate value phash (pkeq PDouble) s k = Some k /\ k <> o.
-Proof. exact primitive_signed_zero_refuted. Qed.
-Print Assumptions locate_primitive_refuted.
+(* primitive sets (a Go map from each key to the value the caller supplied): the stored value too - for floats the caller's own
+   sign of zero, not the looked-up one *)
+Theorem locate_returns_original_primitive : forall p ks s k o, Forall (pgood p) ks -> pgood p k ->
+  add_all value phash (pkeq p) (empty_p value) ks = Some s ->
+  In o ks -> prim_equal p o k = true -> locate value phash (pkeq p) s k = Some o.
+Proof. exact primitive_locate_returns_original. Qed.
+Print Assumptions locate_returns_original_primitive.
 
 (* ---- every entry of a map of the reply is filed under the caller's ORIGINAL key: entries and result correspond one to one, in
    order (none lost, duplicated or moved), each under a key of the caller's list that is equal to the decoded key.  Premise on
@@ -113,13 +101,15 @@ Theorem response_filed_under_original_complex : forall e f n (decode_key : bytes
 Proof. exact complex_response_filed_under_original. Qed.
 Print Assumptions response_filed_under_original_complex.
 
-Theorem response_filed_primitive : forall p (decode_key : bytes -> option value) (P : Type) ks s (entries : list (bytes * option P)) m,
+Theorem response_filed_under_original_primitive : forall p (decode_key : bytes -> option value) (P : Type),
+  (forall raw k, decode_key raw = Some k -> pgood p k) ->
+  forall ks s (entries : list (bytes * option P)) m, Forall (pgood p) ks ->
   add_all value phash (pkeq p) (empty_p value) ks = Some s ->
   reply_nodup value (pkeq p) decode_key P entries ->
   fill value phash (pkeq p) decode_key P s [] entries = inr m ->
-  Forall2 (fun en kp => snd en = Some (snd kp) /\ decode_key (fst en) = Some (fst kp) /\ exists o, In o ks /\ prim_equal p o (fst kp) = true) entries m.
-Proof. exact primitive_response_filed. Qed.
-Print Assumptions response_filed_primitive.
+  Forall2 (fun en kp => snd en = Some (snd kp) /\ In (fst kp) ks /\ exists k, decode_key (fst en) = Some k /\ prim_equal p (fst kp) k = true) entries m.
+Proof. exact primitive_response_filed_under_original. Qed.
+Print Assumptions response_filed_under_original_primitive.
 
 (* the three maps of the reply are each filled that way (a member that occurs once) *)
 Theorem response_maps : forall (key : Type) khash keq (decode_key : bytes -> option key) (P : Type) s pre fl entries post b,
@@ -160,3 +150,9 @@ Example keyset_nonvacuous :
             locate value (shash e 2 t) (skeq e 2 t) s (VLong 7) = None /\
             add_all value (shash e 2 t) (skeq e 2 t) (empty_g value) (ks ++ [VLong 838517077]) = None.
 Proof. vm_compute. split; [reflexivity|]. eexists. repeat split. Qed.
+
+(* a primitive set hands the caller's +0 back for a reply that names -0 *)
+Example primitive_signed_zero_nonvacuous :
+  exists s, add_all value phash (pkeq PDouble) (empty_p value) [VDouble 0] = Some s /\
+            locate value phash (pkeq PDouble) s (VDouble 9223372036854775808) = Some (VDouble 0).
+Proof. exact primitive_signed_zero_original. Qed.
